@@ -247,6 +247,7 @@ type Mismatch struct {
 	Path   string // labels from the compared position down
 	Reason string
 	A, B   string // the two states
+	Via    string // text of the unresolvable $ref concerned, if any
 }
 
 type pairKey struct {
@@ -292,7 +293,9 @@ func bisim(wa *OWorld, a State, wb *OWorld, b State, kind, path string, assumed 
 		}
 		bn, _ := wb.Lookup(b)
 		if text, isRef := RefOf(bn); !isRef || text != ra.Via {
-			return mm(fmt.Sprintf("unresolvable $ref not left verbatim: %q vs %s", ra.Via, abbrev(Text(bn))))
+			m := mm(fmt.Sprintf("unresolvable $ref not left verbatim: %q vs %s", ra.Via, abbrev(Text(bn))))
+			m.Via = ra.Via
+			return m
 		}
 		return nil
 	}
